@@ -74,9 +74,14 @@ def pickMargin (c : Rat) : List Rat → Rat
 
 /-! ### navigation over the slot list -/
 
+/-- is the looked-up slot occupied -/
+def isOcc : Option (Option Op) → Bool
+  | some (some _) => true
+  | _ => false
+
 /-- occupied positions in increasing order -/
 def occ (slots : Slots) : List Nat :=
-  (List.range slots.length).filter (fun p => match slots[p]? with | some (some _) => true | _ => false)
+  (List.range slots.length).filter (fun p => isOcc slots[p]?)
 
 /-- `get_nth_p` (FastOps: from the head, follow `next_p` `n % self.n` times) -/
 def nthOp (slots : Slots) (k : Nat) : Option Nat :=
